@@ -10,6 +10,7 @@ def check(ctx, prog):
     model.rule_split(ctx, prog)
     optimize.rule_domain_source(ctx, prog)  # what split writes is what a solver reads
     process.rule_marker_parent(ctx, prog)  # scope: the parent delivers the union of the parts' solutions (forwarding, completion recorded)
+    process.rule_marker_worker(ctx, prog)  # scope: one completion marker per part, as its last message (an early one ends the collection of that part)
     kinds.rule_count_kind(ctx, prog)
     kinds.rule_index_kind(ctx, prog)  # the split variable is one index kind throughout (what is read is what is written)
     search.rule_resume(ctx, prog)  # scope: a worker delivers every solution of its part exactly once
